@@ -2170,8 +2170,10 @@ impl Kanata {
     }
 
     pub fn is_idle(&self) -> bool {
-        let pressed_keys_means_not_idle =
-            !self.waiting_for_idle.is_empty() || self.live_reload_requested;
+        // Note: a pending live reload must not make pressed keys count as activity, otherwise the
+        // "reload after one idle second even though a key is (stuck) down" fallback in
+        // handle_time_ticks can never trigger: ticks_since_idle would stay at zero.
+        let pressed_keys_means_not_idle = !self.waiting_for_idle.is_empty();
         self.layout.b().queue.is_empty()
             && zippy_is_idle()
             && self.layout.b().waiting.is_none()
